@@ -1,8 +1,157 @@
-"""Regenerates coq/Gen/*.v from /repo's current source (grammar, jet table, aliases)."""
+"""Regenerates coq/Gen/*.v from /repo's current source on every run (the translator side of the tie):
+   JetTable.v  — every Elements jet with the parameter/result types simfony::jet returns now and
+                 simplicity-lang's own source/target types;
+   Aliases.v   — BuiltinAlias::resolve for every alias literal of the grammar;
+   Grammar.v   — src/minimal.pest through pest_meta's parser, printed as a value of Text/Peg.v's datatype."""
 import os
+import re
+
 from svlib import *  # noqa
 
+GEN = os.path.join(COQ, "Gen")
 
-def regenerate():
-    os.makedirs(os.path.join(COQ, "Gen"), exist_ok=True)
+
+def write_if_changed(path, text):
+    if os.path.exists(path) and open(path).read() == text:
+        return False
+    with open(path, "w") as f:
+        f.write(text)
     return True
+
+
+def coq_ty(t):
+    if t == "B":
+        return "TBool"
+    tag = t[0]
+    if tag == "U":
+        return "(TUInt %s)" % t[1]
+    if tag == "E":
+        return "(TEither %s %s)" % (coq_ty(t[1]), coq_ty(t[2]))
+    if tag == "O":
+        return "(TOption %s)" % coq_ty(t[1])
+    if tag == "T":
+        return "(TTuple [%s])" % "; ".join(coq_ty(x) for x in t[1:])
+    if tag == "A":
+        return "(TArray %s %s)" % (coq_ty(t[1]), t[2])
+    if tag == "L":
+        return "(TList %s %s)" % (coq_ty(t[1]), t[2])
+    raise ValueError(t)
+
+
+def coq_sty(t):
+    if t == "1":
+        return "SUnit"
+    if t[0] == "W":
+        return "(two_two_n %s)" % t[1]
+    if t[0] == "+":
+        return "(SSum %s %s)" % (coq_sty(t[1]), coq_sty(t[2]))
+    if t[0] == "*":
+        return "(SProd %s %s)" % (coq_sty(t[1]), coq_sty(t[2]))
+    raise ValueError(t)
+
+
+def coq_string(s):
+    # Coq string literal; only printable ASCII is expected in names
+    return '"' + s.replace('"', '""') + '"'
+
+
+def gen_jets():
+    out = impl("tables", ["(jets)"])[0]
+    rows = parse_sx(out)
+    lines = []
+    for r in rows:
+        idx, name, params, ret, src, tgt = r
+        lines.append("  (%s%%N, %s, [%s], %s, %s, %s)" % (idx, coq_string(name), "; ".join(coq_ty(p) for p in params), coq_ty(ret), coq_sty(src), coq_sty(tgt)))
+    text = ("(* GENERATED on every run by tools/gentables.py from simfony::jet::{source_type,target_type} and\n"
+            "   simplicity-lang's Jet::{source_ty,target_ty} for every member of Elements::ALL.  Do not edit. *)\n"
+            "From Coq Require Import List NArith String.\nImport ListNotations.\n"
+            "Require Import SV.Simp.Core SV.Layout.Ty.\nOpen Scope string_scope.\n\n"
+            "Definition jet_rows : list (N * string * list ty * ty * sty * sty) := [\n" + ";\n".join(lines) + "\n].\n")
+    write_if_changed(os.path.join(GEN, "JetTable.v"), text)
+    return rows
+
+
+def grammar_rules():
+    out = impl("tables", ["(grammar %s)" % quote(os.path.join(REPO, "src", "minimal.pest"))])[0]
+    if out.startswith("ERR") or out.startswith("PANIC"):
+        raise BuildError("cannot translate the grammar: " + out)
+    return parse_sx(out)
+
+
+def literals_of(expr):
+    if isinstance(expr, list):
+        if expr[0] == "str":
+            yield expr[1]
+        else:
+            for x in expr[1:]:
+                yield from literals_of(x)
+
+
+def gen_aliases(rules):
+    names = []
+    for r in rules:
+        if r[1] == "builtin_alias":
+            names = list(literals_of(r[3]))
+    res = impl("tables", ["(alias %s)" % n for n in names])
+    lines = []
+    for n, t in zip(names, res):
+        if t == "none":
+            lines.append("  (%s, None)" % coq_string(n))
+        else:
+            lines.append("  (%s, Some %s)" % (coq_string(n), coq_ty(parse_sx(t))))
+    text = ("(* GENERATED on every run by tools/gentables.py: BuiltinAlias::from_str(..).resolve() for every literal of the\n"
+            "   grammar rule builtin_alias.  Do not edit. *)\n"
+            "From Coq Require Import List NArith String.\nImport ListNotations.\n"
+            "Require Import SV.Layout.Ty.\nOpen Scope string_scope.\n\n"
+            "Definition builtin_aliases : list (string * option ty) := [\n" + ";\n".join(lines) + "\n].\n")
+    write_if_changed(os.path.join(GEN, "Aliases.v"), text)
+
+
+def coq_peg(e):
+    tag = e[0]
+    if tag == "str":
+        return "(PStr %s)" % coq_bytes(e[1])
+    if tag == "insens":
+        return "(PInsens %s)" % coq_bytes(e[1])
+    if tag == "range":
+        return "(PRange %d %d)" % (ord(e[1][0]), ord(e[2][0]))
+    if tag == "id":
+        return "(PId %s)" % coq_string(e[1])
+    if tag in ("pos", "neg", "opt", "rep", "rep1"):
+        return "(%s %s)" % ({"pos": "PPos", "neg": "PNeg", "opt": "POpt", "rep": "PRep", "rep1": "PRep1"}[tag], coq_peg(e[1]))
+    if tag == "seq":
+        return "(PSeq %s %s)" % (coq_peg(e[1]), coq_peg(e[2]))
+    if tag == "alt":
+        return "(PAlt %s %s)" % (coq_peg(e[1]), coq_peg(e[2]))
+    if tag == "repn":
+        return "(PRepN %s %s)" % (coq_peg(e[1]), e[2])
+    raise BuildError("grammar uses a PEG operator the model does not cover: %r" % (e,))
+
+
+def coq_bytes(s):
+    return "[" + "; ".join("%d%%N" % b for b in s.encode("utf-8")) + "]"
+
+
+def gen_grammar(rules):
+    lines = []
+    for r in rules:
+        _, name, kind, expr = r
+        k = {"normal": "RNormal", "silent": "RSilent", "atomic": "RAtomic", "compound": "RCompound", "nonatomic": "RNonAtomic"}[kind]
+        lines.append("  (%s, %s, %s)" % (coq_string(name), k, coq_peg(expr)))
+    text = ("(* GENERATED on every run by tools/gentables.py from /repo/src/minimal.pest through pest_meta::parser.  Do not edit. *)\n"
+            "From Coq Require Import List NArith String.\nImport ListNotations.\n"
+            "Require Import SV.Text.Peg.\nOpen Scope string_scope.\n\n"
+            "Definition grammar : list (string * rkind * peg) := [\n" + ";\n".join(lines) + "\n].\n")
+    write_if_changed(os.path.join(GEN, "Grammar.v"), text)
+
+
+def regenerate(grammar=True):
+    """Needs the harness to be built.  Returns the parsed tables for the caller's own use."""
+    os.makedirs(GEN, exist_ok=True)
+    with Lock("gen"):
+        rows = gen_jets()
+        rules = grammar_rules()
+        gen_aliases(rules)
+        if grammar and os.path.exists(os.path.join(COQ, "Text", "Peg.v")):
+            gen_grammar(rules)
+    return {"jets": rows, "rules": rules}
